@@ -81,21 +81,28 @@ def extract_atom(
     raise ValueError(f"Unsupported atomic expression: {expression}")
 
 
-def _recursive_pow_expression_to_pddl(expression: Pow, symbols_map: dict) -> str:
+def _recursive_pow_expression_to_pddl(
+    expression: Pow, symbols_map: dict, base_expression: Optional[str] = None
+) -> str:
     """Converts a recursive expression to a PDDL format.
 
     :param expression: the expression to convert.
+    :param symbols_map: the map between the symbolic expression and the PDDL expression.
+    :param base_expression: the PDDL form of the base when it is not a single fluent (e.g., (x + y) ** 2).
     :return: the string representing the PDDL expression.
     """
     exponent = expression.exp
-    compiled_expression = f"{symbols_map[expression.base]}"
+    base = (
+        base_expression
+        if base_expression is not None
+        else f"{symbols_map[expression.base]}"
+    )
+    compiled_expression = base
     if exponent == -1:
         return f"(/ 1 {compiled_expression})"
 
     for _ in range(exponent - 1):
-        compiled_expression = (
-            f"(* {compiled_expression} {symbols_map[expression.base]})"
-        )
+        compiled_expression = f"(* {compiled_expression} {base})"
 
     return compiled_expression
 
@@ -131,7 +138,23 @@ def _convert_internal_expression_to_pddl(
         return f"(/ 1 {pddl_expression})"
 
     if isinstance(expression, Pow) and expression.exp > 1:
-        return _recursive_pow_expression_to_pddl(expression, symbols_map)
+        if expression.base.func == Symbol:
+            return _recursive_pow_expression_to_pddl(expression, symbols_map)
+
+        # a compound base, e.g., (x + y) ** 2 - the base itself has to be converted first.
+        base_expression = _convert_internal_expression_to_pddl(
+            expression.base,
+            SYMPY_OP_TO_PDDL_OP.get(expression.base.func, ""),
+            symbols_map,
+            decimal_digits,
+            should_remove_trailing_zeros,
+        )
+        if not base_expression:
+            return None
+
+        return _recursive_pow_expression_to_pddl(
+            expression, symbols_map, base_expression
+        )
 
     # the expression is a binary expression with multiple arguments
     components = []
